@@ -507,7 +507,7 @@ Close Scope R_scope.
 
 (* ================= the float64 helpers as REGENERATED from the Go source (generated/GeneratedFS.v, struct values as tuples; vt / mt read a
    tuple as the model's record; math.Hypot/Sin/Cos are fields of GeneratedF.libm). The main binary64 results above, restated over the
-   generated definitions through GenEqFSpatial.gen_*_eq: an edit of one of these Go functions changes GeneratedFS.v and breaks the theorem.
+   generated definitions through the GenEqFS* lemmas gen_*_eq: an edit of one of these Go functions changes GeneratedFS.v and breaks the theorem.
    Not regenerated (slices of pointers / range loops), hence tied by the differential run only: UniqueAppend, MaxPoint, MinPoint. ================= *)
 Open Scope R_scope.
 Theorem C20_generated_line_start_is_the_start_point : forall p q, GeneratedFS.Line3_Start (GeneratedFS.NewLineFromPoints p q) = p.
